@@ -44,9 +44,9 @@ def gen_cases(seed, tier):
             g['fchans'], g['tchans'] = 4096, 64
         spec = work_sig.gen_signal(rng, g, i=i)
         opts = work_sig.gen_opts(rng, i)
-        bk = work_sig.BOUND_KINDS[(i // 16) % len(work_sig.BOUND_KINDS)]
+        bk = common.stratum(i, 42, work_sig.BOUND_KINDS)
         brange = work_sig.gen_bounding(rng, g, bk)
-        if i % 40 == 7:
+        if common.stratum(i, 41, 40) == 7:
             # array bandpass on a bounded, frequency-integrated grid whose length equals fchans exactly
             S = int(common.pick(rng, [2, 3, 4]))
             nb = int(rng.integers(2, 40))
